@@ -21,6 +21,8 @@ THRead == Ev.op = "hread" /\ Ev.sid \in DOMAIN hist
              /\ RO
 TRecS  == Ev.op = "recsearch" /\ RecordSearch(Ev.hit)
 TRecD  == Ev.op = "recdb" /\ RecordDb(Ev.name, Ev.hit)
+\* a search through the real monitored database: recorded exactly once, as a hit or as a miss (the report that follows says which)
+TMSearch == Ev.op = "msearch" /\ \E h \in BOOLEAN : RecordSearch(h)
 \* totals read back from the monitor's report
 DbKey(i) == <<Ev.db[i][1], Ev.db[i][2] = 1>>
 ReportOK ==
@@ -35,7 +37,7 @@ TConc  == Ev.op = "conc" /\ Ev.total = Ev.g * Ev.k /\ Ev.series = 1 /\ Ev.hcount
 
 TraceInit == l = 1 /\ reg = {} /\ cval = <<>> /\ hist = <<>> /\ nSearch = <<0, 0>> /\ nDb = <<>> /\ mlast = [op |-> "init", sid |-> 0]
 TraceNext == l <= Len(Trace) /\ l' = l + 1
-             /\ (TReset \/ TGet \/ TAdd \/ TCVal \/ TObs \/ THRead \/ TRecS \/ TRecD \/ TReport \/ TConc)
+             /\ (TReset \/ TGet \/ TAdd \/ TCVal \/ TObs \/ THRead \/ TRecS \/ TRecD \/ TMSearch \/ TReport \/ TConc)
 TraceSpec == TraceInit /\ [][TraceNext]_tvars
 TraceAccepted ==
     LET d == TLCGet("stats").diameter IN
